@@ -210,7 +210,7 @@ func init() {
 	})
 
 	register(&Rule{
-		ID: "C04.R3", Props: []string{"C04", "C17", "C05", "C10"}, Min: 2,
+		ID: "C04.R3", Props: []string{"C04", "C17", "C05", "C10", "C09"}, Min: 2,
 		Doc: "scope storage ownership: the scope list (Stack.stack) is read or written only by methods of *Stack; the one deliberate exception (write-through of <template :x> bindings to the parent scope) restores the scope it removed, in the same straight-line block",
 		Run: func(p *Prog, c *Ctx) {
 			var stackField *types.Var
@@ -1056,38 +1056,74 @@ func init() {
 						c.ok(fmt.Sprintf("Pop: return#%d has removed a scope", i+1), p.instrPos(r), "every way to this return re-slices the list")
 						continue
 					}
-					emptyOnly := true
-					gs := guardsOf(r.Block())
-					if len(gs) == 0 {
-						emptyOnly = false
-					}
-					for _, g := range gs {
-						isEmptyTest := false
-						if op, x, y, ok := relationConstRight(g.If.Cond, g.Branch); ok {
-							if z, isK := constInt(y); isK {
-								// the tested quantity may be len(list) shifted by a constant (topIdx := len(list) - 1; topIdx < 0)
-								if bo, isB := x.(*ssa.BinOp); isB && (bo.Op == token.SUB || bo.Op == token.ADD) {
-									if k, isC := constInt(bo.Y); isC {
-										if bo.Op == token.SUB {
-											z += k
-										} else {
-											z -= k
-										}
-										x = bo.X
-									}
+					// every way to this return that does not re-slice the list leaves an emptiness test on its `empty` edge
+					// (`if len(s.stack) == 0 { return }` as well as `if len(s.stack) != 0 { … whole body … }`)
+					isEmptyEdge := func(from, to *ssa.BasicBlock) bool {
+						if len(from.Instrs) == 0 {
+							return false
+						}
+						ifi, ok := from.Instrs[len(from.Instrs)-1].(*ssa.If)
+						if !ok || from.Succs[0] == from.Succs[1] {
+							return false
+						}
+						branch := from.Succs[0] == to
+						op, x, y, ok := relationConstRight(ifi.Cond, branch)
+						if !ok {
+							return false
+						}
+						z, isK := constInt(y)
+						if !isK {
+							return false
+						}
+						// the tested quantity may be len(list) shifted by a constant (topIdx := len(list) - 1; topIdx < 0)
+						if bo, isB := x.(*ssa.BinOp); isB && (bo.Op == token.SUB || bo.Op == token.ADD) {
+							if k, isC := constInt(bo.Y); isC {
+								if bo.Op == token.SUB {
+									z += k
+								} else {
+									z -= k
 								}
-								if (op == token.EQL && z == 0) || (op == token.LSS && z == 1) || (op == token.LEQ && z == 0) {
-									if ln := isCallNamed(x, "builtin.len"); ln != nil {
-										if f := loadedField(ln.Call.Args[0]); f != nil && fieldIs(f, "stack") {
-											isEmptyTest = true
-										}
-									}
-								}
+								x = bo.X
 							}
 						}
-						if !isEmptyTest {
-							emptyOnly = false
+						if !((op == token.EQL && z == 0) || (op == token.LSS && z == 1) || (op == token.LEQ && z == 0)) {
+							return false
 						}
+						ln := isCallNamed(x, "builtin.len")
+						if ln == nil {
+							return false
+						}
+						f := loadedField(ln.Call.Args[0])
+						return f != nil && fieldIs(f, "stack")
+					}
+					emptyOnly := true
+					seenB := map[*ssa.BasicBlock]bool{}
+					var reach func(b *ssa.BasicBlock) bool
+					reach = func(b *ssa.BasicBlock) bool {
+						if seenB[b] {
+							return false
+						}
+						seenB[b] = true
+						for _, in := range b.Instrs {
+							if reslices[in] {
+								return false
+							}
+							if in == ssa.Instruction(r) {
+								return true
+							}
+						}
+						for _, sx := range b.Succs {
+							if isEmptyEdge(b, sx) {
+								continue
+							}
+							if reach(sx) {
+								return true
+							}
+						}
+						return false
+					}
+					if len(pop.Blocks) > 0 && reach(pop.Blocks[0]) {
+						emptyOnly = false
 					}
 					c.check(emptyOnly, fmt.Sprintf("Pop: return#%d has removed a scope", i+1), p.instrPos(r), "the only return that removes nothing is taken when the list is empty", "Pop can return without removing a scope although the list is not empty: the scope of the matching Push stays, its bindings shadow the outer ones for the rest of the render")
 				}
@@ -1352,8 +1388,27 @@ func init() {
 				// elements of the slice literal passed as nodes
 				var elems []ssa.Value
 				for _, o := range p.origins(site.Common().Args[2], OriginOpts{}) {
-					if al, ok := o.(*ssa.Alloc); ok {
-						if refs := al.Referrers(); refs != nil {
+					// a literal ([]*html.Node{x}: an array filled element by element) or a slice made and filled here
+					var all []ssa.Instruction
+					switch al := o.(type) {
+					case *ssa.Alloc:
+						if al.Referrers() != nil {
+							all = append(all, *al.Referrers()...)
+							// make([]T, k) with a constant k is an array and a slice of it: elements are set through the slice
+							for _, r := range *al.Referrers() {
+								if sl, ok := r.(*ssa.Slice); ok && sl.Referrers() != nil {
+									all = append(all, *sl.Referrers()...)
+								}
+							}
+						}
+					case *ssa.MakeSlice:
+						if al.Parent() == site.Parent() && al.Referrers() != nil {
+							all = append(all, *al.Referrers()...)
+						}
+					}
+					refs := &all
+					if len(all) > 0 {
+						{
 							for _, r := range *refs {
 								if ia, ok := r.(*ssa.IndexAddr); ok {
 									if irefs := ia.Referrers(); irefs != nil {
